@@ -5,8 +5,9 @@
    of Conf.Validate / Path.validate only accepts documented configurations, (3) the bit-level
    power-of-two test is exact. Panic-freedom of goccy/go-yaml, encoding/json, secretbox, regexp
    and url parsing is exercised by the correspondence run, not proved. *)
+From Coq Require Import String.
 From Coq Require Import List ZArith Bool.
-Require Import MTX.Model.C10_Load MTX.Proofs.C10_Load.
+Require Import MTX.Model.C10_Load MTX.Model.C10_Sites MTX.Proofs.C10_Load MTX.Proofs.C10_Validate MTX.Proofs.C10_Sites MTXGen.C10_ErrSites.
 Import ListNotations.
 Local Open Scope Z_scope.
 
@@ -73,7 +74,10 @@ Theorem C10_pow2_test_complete : forall k, 0 <= k -> Z.land (2 ^ k) (2 ^ k - 1) 
 Proof. exact pow2_land_pred. Qed.
 Print Assumptions C10_pow2_test_complete.
 
-(* validated configurations satisfy the documented constraints (write queue size is a Go int) *)
+(* validated configurations satisfy the documented constraints (write queue size is a Go int).
+   "partial": the oracle fields stand for library calls (IsValidPathName, regexp.Compile, validateURL,
+   net.SplitHostPort, checkRedirect, Forward.Validate, checkAlwaysAvailableFile, rePlainCredential, reflect.DeepEqual);
+   every other check of Conf.Validate / Path.validate is a condition over plain fields in the model. *)
 Theorem C10_validated_constraints_partial : forall g o,
   validate g = Ok o ->
   (match g_read_buffer_count g with Some x => x | None => g_wqs g end) < 2 ^ 63 ->
@@ -81,7 +85,7 @@ Theorem C10_validated_constraints_partial : forall g o,
 Proof. exact validate_documented. Qed.
 Print Assumptions C10_validated_constraints_partial.
 
-(* ... and this is what the boolean says, in words *)
+(* ... and this is what the boolean says, in words: the constraints the property text names *)
 Theorem C10_documented_meaning : forall g, documented_b g = true ->
   0 < g_read_to g /\ 0 < g_write_to g /\
   (exists k, 0 <= k /\ g_wqs g = 2 ^ k) /\
@@ -104,32 +108,137 @@ Theorem C10_documented_meaning : forall g, documented_b g = true ->
 Proof. exact documented_meaning. Qed.
 Print Assumptions C10_documented_meaning.
 
+(* ... and the constraints of the checks over plain fields that were one oracle boolean before: authentication,
+   listener addresses, RTSP transports / encryption / digest, WebRTC, deprecated parameters, rpiCamera parameters *)
+Theorem C10_documented_meaning_ext : forall g, documented_b g = true ->
+  let x := g_x g in let a := x_auth x in let r := x_rtsp x in let w := x_webrtc x in
+  (a_method a = 0 -> forall u, In u (a_users a) -> u_user u <> [] /\ (u_user u = s_any -> u_pass u = [])) /\
+  (a_method a = 1 -> a_http_addr a <> [] /\ (starts (bytes "http://") (a_http_addr a) \/ starts (bytes "https://") (a_http_addr a))) /\
+  (a_method a = 2 -> a_jwks a <> [] /\ (starts (bytes "http://") (a_jwks a) \/ starts (bytes "https://") (a_jwks a)) /\ a_claim a <> []) /\
+  (forall u, a_ext_url a = Some u -> a_method a = 1 /\ a_http_addr a = u) /\
+  (x_api x = true -> s_addr (x_api_srv x) <> []) /\
+  (x_metrics x = true -> s_addr (x_metrics_srv x) <> []) /\
+  (x_pprof x = true -> s_addr (x_pprof_srv x) <> []) /\
+  (g_playback g = true -> s_addr (x_playback_srv x) <> []) /\
+  (x_rtmp x = true -> x_rtmp_addr x <> []) /\
+  (x_hls x = true -> s_addr (x_hls_srv x) <> []) /\
+  (w_on w = true -> s_addr (w_srv w) <> []) /\
+  (m_on (x_moq x) = true -> m_quic (x_moq x) <> []) /\
+  (r_on r = true ->
+     (r_encryption r = 0 \/ r_encryption r = 1 ->
+        r_addr r <> [] /\ (t_udp (r_transports r) = true -> r_rtp r <> [] /\ r_rtcp r <> []) /\
+        (t_mc (r_transports r) = true -> r_mc_range r <> [] /\ r_mc_rtp r <> 0 /\ r_mc_rtcp r <> 0)) /\
+     (r_encryption r = 1 \/ r_encryption r = 2 ->
+        r_rtsps_addr r <> [] /\ (t_udp (r_transports r) = true -> r_srtp r <> [] /\ r_srtcp r <> []) /\
+        (t_mc (r_transports r) = true -> r_mc_range r <> [] /\ r_mc_srtp r <> 0 /\ r_mc_srtcp r <> 0)) /\
+     r_auth_methods r <> [] /\
+     (In 1 (r_auth_methods r) -> a_method a = 0 /\ forall u, In u (a_users a) -> user_hashed u = false)) /\
+  (w_on w = true ->
+     (forall s, In s (w_ice w) -> ice_url_ok (fst (fst s)) = true) /\
+     (w_local_udp w <> [] \/ w_local_tcp w <> [] \/ w_ice w <> []) /\
+     (w_local_udp w <> [] \/ w_local_tcp w <> [] -> w_from_ifaces w = true \/ w_hosts w <> [])) /\
+  (forall d, r_disable r = Some d -> r_on r = negb d) /\
+  (forall v, r_encryption_dep r = Some v -> r_encryption r = v) /\
+  (forall v, w_udp_mux w = Some v -> w_local_udp w = v) /\
+  (forall v, d_path (x_rec x) = Some v -> d_pd_path (x_rec x) = v) /\
+  forall p, In p (g_paths g) ->
+    (p_source p = SRpi ->
+       let e := p_x p in
+       e_w e <> 0 /\ e_h e <> 0 /\ In (e_exposure e) l_exposure /\ In (e_awb e) l_awb /\ e_awb_gains e = 2 /\
+       In (e_denoise e) l_denoise /\ In (e_metering e) l_metering /\ In (e_afmode e) l_afmode /\
+       In (e_afrange e) l_afrange /\ In (e_afspeed e) l_afspeed /\ In (e_h264_profile e) l_profile4 /\
+       In (e_h264_level e) l_level /\ In (e_codec e) l_codec /\
+       (mjpeg_dims (p_secondary p) e = true -> e_w e < 2048 /\ e_w e mod 8 = 0 /\ e_h e < 2048 /\ e_h e mod 8 = 0) /\
+       (forall v, e_jpeg_q e = Some v -> e_mjpeg_q e = v)) /\
+    (p_source p = SRedirect -> p_redirect p = true) /\
+    (p_aa p = true -> if e_aa_file (p_x p) then p_tracks p = [] else p_tracks p <> []) /\
+    (forall v, e_on_ready (p_x p) = Some v -> e_on_available (p_x p) = v).
+Proof. exact documented_meaning_ext. Qed.
+Print Assumptions C10_documented_meaning_ext.
+
+(* every `return <error>` of Conf.Validate / Path.validate found in the Go sources by tools/gen/c10sites is in the
+   hand-written table Model/C10_Sites.v (as a modelled check with its constructor, or as a named oracle), as often
+   as it occurs, and conversely; 89 modelled, 19 oracle sites, 1 pass-through *)
+Theorem C10_error_sites_tie : sites_tie sites = true /\ (n_modelled, n_oracle) = (89, 19)%nat.
+Proof. exact (conj sites_tie_ok sites_counts). Qed.
+Print Assumptions C10_error_sites_tie.
+
 (* non-vacuity: a configuration with a regex path on demand, a primary/secondary camera pair and the
    deprecated readBufferCount is accepted; breaking one constraint at a time is rejected *)
-Definition ex_rp : list Z := [46;47;37;112;97;116;104;47;37;89;45;37;109;45;37;100;95;37;72;45;37;77;45;37;83;45;37;102].
-Definition ex_path (name : list Z) (s : src) (od : bool) (cam : Z) (sec : bool) : pathc :=
-  {| p_name := name; p_name_ok := true; p_regex := false; p_source := s; p_on_demand := od;
+Definition ex_rp : list Z := bytes "./%path/%Y-%m-%d_%H-%M-%S-%f".
+Definition ex_pext (codec exposure : list Z) (pub_pass : option (list Z)) : pext :=
+  {| e_url_ok := true; e_hostport_ok := true; e_rtp_sdp := false; e_port_range := 2;
+     e_dis_pub_override := Some true; e_override_publisher := true;
+     e_source_protocol := Some 3; e_rtsp_transport := 0; e_source_any_port := None; e_rtsp_any_port := false;
+     e_w := 1920; e_h := 1080; e_codec := codec; e_exposure := exposure; e_awb := bytes "auto"; e_awb_gains := 2;
+     e_denoise := bytes "off"; e_metering := bytes "centre"; e_afmode := bytes "continuous"; e_afrange := bytes "normal";
+     e_afspeed := bytes "normal"; e_profile := Some (bytes "high"); e_level := None; e_hw_profile := None; e_hw_level := None;
+     e_sw_profile := None; e_sw_level := None; e_h264_profile := bytes "main"; e_h264_level := bytes "4.1";
+     e_jpeg_q := Some 70; e_mjpeg_q := 60; e_aa_file := false; e_aa_file_ok := false;
+     e_pub_user := None; e_pub_pass := pub_pass; e_pub_ips := None; e_read_user := None; e_read_pass := None; e_read_ips := None;
+     e_on_ready := Some (bytes "echo"); e_on_available := []; e_ready_restart := None; e_available_restart := false;
+     e_on_not_ready := None; e_on_unavailable := [] |}.
+Definition ex_path (name src : list Z) (od : bool) (cam : Z) (sec : bool) (x : pext) : pathc :=
+  {| p_name := name; p_name_ok := true; p_regex := false; p_source_str := src; p_on_demand := od;
      p_srt_pub := 0; p_srt_read := 12; p_redirect := false; p_redirect_ok := true; p_cam := cam;
-     p_secondary := sec; p_rpi_ok := true; p_other_ok := true; p_aa := false; p_aa_src_ok := false;
+     p_secondary := sec; p_forward_ok := true; p_fallback_ok := true; p_aa := false;
      p_abs_ts := false; p_run_init := false; p_run_demand := false; p_record_path := ex_rp;
-     p_seg := 3600000000000; p_del := 86400000000000; p_tracks := [(0, 0, 0); (1, 48000, 2)] |}.
-Definition ex_conf (wqs : Z) (od : bool) (cam2 : Z) : gconf :=
+     p_seg := 3600000000000; p_del := 86400000000000; p_tracks := [(0, 0, 0); (1, 48000, 2)]; p_x := x |}.
+Definition ex_srv (addr : list Z) : xsrv := {| s_addr := addr; s_origin := Some (bytes "*"); s_origins := [] |}.
+Definition ex_gext (api_addr : list Z) (digest : bool) : gext :=
+  {| x_auth := {| a_ext_url := None; a_method := 0; a_http_addr := []; a_pd_creds := false; a_users_custom := false;
+                  a_users := [{| u_user := bytes "admin"; u_pass := bytes "pw"; u_nips := 0; u_perms := [(0, [])] |}];
+                  a_jwks := []; a_claim := bytes "mediamtx_permissions" |};
+     x_api := true; x_api_srv := ex_srv api_addr; x_metrics := false; x_metrics_srv := ex_srv [];
+     x_pprof := false; x_pprof_srv := ex_srv []; x_playback_srv := ex_srv (bytes ":9996");
+     x_rtsp := {| r_disable := None; r_on := true; r_protocols := Some (true, false, true); r_transports := (true, true, true);
+                  r_encryption_dep := None; r_encryption := 0;
+                  r_auth_methods_dep := None; r_auth_methods := if digest then [0; 1] else [0];
+                  r_cert_dep := None; r_cert := bytes "server.crt"; r_key_dep := None; r_key := bytes "server.key";
+                  r_addr := bytes ":8554"; r_rtsps_addr := bytes ":8322"; r_rtp := bytes ":8000"; r_rtcp := bytes ":8001";
+                  r_srtp := bytes ":8004"; r_srtcp := bytes ":8005"; r_mc_range := []; r_mc_rtp := 0; r_mc_rtcp := 0;
+                  r_mc_srtp := 0; r_mc_srtcp := 0 |};
+     x_rtmp_disable := Some true; x_rtmp := true; x_rtmp_addr := [];
+     x_hls_disable := None; x_hls := true; x_hls_srv := ex_srv (bytes ":8888"); x_hls_secret := false; x_hls_secret_ok := false;
+     x_webrtc := {| w_disable := None; w_on := true; w_srv := ex_srv (bytes ":8889");
+                    w_udp_mux := Some (bytes ":8189"); w_local_udp := []; w_tcp_mux := None; w_local_tcp := [];
+                    w_nat_ips := None; w_hosts := []; w_ice_dep := Some [bytes "turn:user:pass:host.example:3478"];
+                    w_ice := [(bytes "stun:stun.example:19302", [], [])]; w_from_ifaces := true |};
+     x_moq := {| m_on := false; m_quic := []; m_https2 := None; m_http2 := []; m_https3 := None; m_http3 := [] |};
+     x_rec := {| d_record := None; d_pd_record := false; d_path := Some ex_rp; d_pd_path := []; d_format := None; d_pd_format := 0;
+                 d_part := None; d_pd_part := 1000000000; d_seg := None; d_pd_seg := 3600000000000; d_del := None; d_pd_del := 0 |} |}.
+Definition ex_conf (wqs : Z) (od : bool) (cam2 : Z) (x : gext) (cam_x : pext) (exposure : list Z) : gconf :=
   {| g_read_to := 10000000000; g_write_to := 10000000000; g_wqs := 3; g_read_buffer_count := Some wqs;
-     g_udp := 1452; g_playback := true; g_other_ok := true;
-     g_paths := [ex_path [99;97;109] SPublisher false 0 false;
-                 ex_path [114;112;105] SRpi false 0 false;
-                 ex_path [114;112;105;50] SRpi false cam2 true;
-                 ex_path [126;94;120] (SStatic true) od 0 false] |}.
+     g_udp := 1452; g_playback := true; g_x := x;
+     g_paths := [ex_path (bytes "cam") (bytes "publisher") false 0 false cam_x;
+                 ex_path (bytes "rpi") (bytes "rpiCamera") false 0 false (ex_pext (bytes "auto") exposure None);
+                 ex_path (bytes "rpi2") (bytes "rpiCamera") false cam2 true (ex_pext (bytes "mjpeg") (bytes "normal") None);
+                 ex_path (bytes "~^x") (bytes "rtsp://cam.example/stream") od 0 false (ex_pext (bytes "auto") (bytes "normal") None)] |}.
+Definition ex_ok_x := ex_gext (bytes ":9997") false.
+Definition ex_cam_x := ex_pext (bytes "auto") (bytes "normal") None.
+Definition is_err {A} (r : result A) (e : verr) : Prop := r = Err e.
+
+Definition nrm := bytes "normal".
 
 Example C10_example :
-  match validate (ex_conf 512 true 0) with
+  match validate (ex_conf 512 true 0 ex_ok_x ex_cam_x nrm) with
   | Ok o => (g_wqs o =? 512) && documented_b o &&
-            forallb (fun bb => Bool.eqb (fst bb) (snd bb)) (combine (map p_regex (g_paths o)) [false; false; false; true])
-  | Err => false
+            forallb (fun bb => Bool.eqb (fst bb) (snd bb)) (combine (map p_regex (g_paths o)) [false; false; false; true]) &&
+            (* migrations: rtmpDisable, webrtcICEUDPMuxAddress, webrtcICEServers, rpiCameraJPEGQuality, sourceProtocol *)
+            negb (x_rtmp (g_x o)) && list_eqb (w_local_udp (x_webrtc (g_x o))) (bytes ":8189") &&
+            list_eqb_with ice_eqb (w_ice (x_webrtc (g_x o)))
+              [(bytes "stun:stun.example:19302", [], []); (bytes "turn:host.example:3478", bytes "user", bytes "pass")] &&
+            forallb (fun p => (e_mjpeg_q (p_x p) =? 70) || negb (src_eqb (p_source p) SRpi)) (g_paths o) &&
+            forallb (fun p => (e_rtsp_transport (p_x p) =? 3) || negb (is_rtsp_source p)) (g_paths o)
+  | Err _ => false
   end = true /\
-  validate (ex_conf 500 true 0) = Err /\          (* not a power of two *)
-  validate (ex_conf 512 false 0) = Err /\         (* regex path, static source, not on demand *)
-  validate (ex_conf 512 true 1) = Err /\          (* secondary camera without primary *)
+  is_err (validate (ex_conf 500 true 0 ex_ok_x ex_cam_x nrm)) E_wqs_pow2 /\
+  is_err (validate (ex_conf 512 false 0 ex_ok_x ex_cam_x nrm)) E_regex_static_demand /\
+  is_err (validate (ex_conf 512 true 1 ex_ok_x ex_cam_x nrm)) E_rpi_no_primary /\
+  is_err (validate (ex_conf 512 true 0 (ex_gext [] false) ex_cam_x nrm)) E_api_addr /\
+  is_err (validate (ex_conf 512 true 0 ex_ok_x ex_cam_x (bytes "bright"))) E_rpi_exposure /\
+  (* publishPass without publishUser: deprecated credentials mode, user "any" with a password *)
+  is_err (validate (ex_conf 512 true 0 ex_ok_x (ex_pext (bytes "auto") nrm (Some (bytes "secret"))) nrm)) E_dep_any_pass /\
   decrypt true (fun _ => Some [1;2;3]) (fun _ _ _ => None) [107] [65;65;65;65] = DErr /\
   decrypt false (fun _ => Some [1;2;3]) (fun _ _ _ => None) [107] [65;65;65;65] = DPanic.
 Proof. vm_compute. repeat split. Qed.
